@@ -50,7 +50,9 @@ unsafe impl<T: Flat> Flat for PhantomData<T> {}
 
 unsafe impl<T: Flat, const N: usize> FlatValidate for [T; N] {
     unsafe fn validate_unchecked(bytes: &[u8]) -> Result<(), Error> {
-        for i in 0..N {
+        // All elements of a zero-sized type are the same (empty) bytes: one check covers them all.
+        let count = if T::SIZE == 0 { if N > 0 { 1 } else { 0 } } else { N };
+        for i in 0..count {
             T::validate_unchecked(bytes.get_unchecked((i * T::SIZE)..).get_unchecked(..T::SIZE))
                 .map_err(|e| e.offset(i * T::SIZE))?;
         }
